@@ -17,7 +17,7 @@
 (* lattice; sites u # v are k-th neighbours iff some admissible image of v *)
 (* (images exist along periodic axes only) lies at distance d_k from u.    *)
 (* E_k is the set of such pairs <<u, v>>, u < v.                           *)
-(* NNComb / Coordination are the textbook combinatorial descriptions used  *)
+(* NNFwd / Coordination / DistRatios: textbook combinatorial descriptions used *)
 (* by SpinLatticeGen to cross-check the geometry tables.                   *)
 (*                                                                         *)
 (* HAMILTONIANS: the sums printed in the documentation of                  *)
